@@ -103,3 +103,115 @@ def replay_leg(pid, rp, env):
         print("  key=%s : %s" % (key, what))
         rc = 1
     return rc
+
+
+# ------------------------------------------------------------------------------------------------------
+# C18 : Miri (quick + thorough), AddressSanitizer and valgrind memcheck (thorough)
+
+def first_repo_frame(text):
+    # only look after the first tool report (compiler warnings before it mention harness files too)
+    for marker in ("Undefined Behavior", "ERROR: AddressSanitizer", "Invalid ", "ERROR: LeakSanitizer"):
+        k = text.find(marker)
+        if k >= 0:
+            text = text[k:]
+            break
+    for line in text.splitlines():
+        m = re.search(r"(/repo/src/[\w/]+\.rs:\d+)", line)
+        if m:
+            return m.group(1)
+    for line in text.splitlines():
+        m = re.search(r"(src/c\d\d\.rs:\d+)", line)
+        if m:
+            return "harness " + m.group(1)
+    return "?"
+
+
+def miri_run(args, env, timeout):
+    e = dict(env)
+    e["MIRIFLAGS"] = "-Zmiri-disable-isolation"
+    e["CARGO_TARGET_DIR"] = os.path.join(TARGET, "miri")
+    return run(["cargo", "+nightly", "miri", "run", "--offline", "--quiet", "--"] + args, e, timeout, cwd=HARNESS)
+
+
+def legs_c18(res, env, only=None):
+    tier, seed = res.tier, res.seed
+    # ---- Miri
+    if only in (None, "miri"):
+        sizes = [["20", "4", "40", "4"]] if tier == "quick" else [["60", "8", "120", "8"], ["30", "12", "300", "4"], ["10", "3", "2000", "3"], ["40", "6", "64", "6"]]
+        t0 = time.time()
+        import concurrent.futures as cf
+        with cf.ThreadPoolExecutor(max_workers=4) as ex:
+            futs = [ex.submit(miri_run, ["child", "c18", str(seed * 1000 + i)] + sz, env, 1800) for i, sz in enumerate(sizes)]
+            outs = [f.result() for f in futs]
+        nvals = 0
+        reports = 0
+        for (rc, out), sz in zip(outs, sizes):
+            m = re.search(r"C18DONE values=(\d+) bytes=(\d+) distinct=(\d+) bad=(\d+)", out or "")
+            if rc is None:
+                res.inconclusive.append("miri leg timed out (sizes %s)" % sz)
+            elif "Undefined Behavior" in out or "memory leaked" in out or "error: unsupported operation" in out:
+                reports += 1
+                first = [l for l in out.splitlines() if l.startswith("error:")][:1]
+                res.violation("C18/miri", "Miri reports %s at %s" % (first[0] if first else "an error", first_repo_frame(out)), out, "miri")
+            elif m and rc in (0, 3):
+                nvals += int(m.group(1))
+                if rc == 3:
+                    bad = [l for l in out.splitlines() if l.startswith("C18BAD")]
+                    res.violation("C18/bytes", "byte mismatch under Miri: %s" % (bad[0] if bad else "?"), out, "miri")
+            else:
+                res.inconclusive.append("miri leg did not run to completion (exit %s): %s" % (rc, (out or "")[-300:].replace("\n", " | ")))
+        res.evaluations += nvals
+        res.legs.append({"leg": "miri", "tool": "cargo +nightly miri run (isolation off)", "processes": len(sizes), "values_checked_under_miri": nvals,
+                         "reports": reports, "wall_s": round(time.time() - t0, 1)})
+    if tier != "thorough" and only is None:
+        return
+    # ---- AddressSanitizer
+    if only in (None, "asan"):
+        t0 = time.time()
+        e = dict(env)
+        e["RUSTFLAGS"] = "-Zsanitizer=address -Cforce-frame-pointers=yes"
+        e["CARGO_TARGET_DIR"] = os.path.join(TARGET, "asan")
+        rc, out = run(["cargo", "+nightly", "build", "--release", "--offline", "--quiet", "--target", "x86_64-unknown-linux-gnu"], e, 1800, cwd=HARNESS)
+        binp = os.path.join(TARGET, "asan", "x86_64-unknown-linux-gnu", "release", "pmhv")
+        if rc != 0 or not os.path.exists(binp):
+            res.inconclusive.append("asan build failed: %s" % (out or "")[-300:].replace("\n", " | "))
+        else:
+            e2 = dict(env)
+            e2["ASAN_OPTIONS"] = "halt_on_error=1:abort_on_error=0:detect_leaks=1:exitcode=77"
+            nvals = 0
+            reports = 0
+            for i in range(3):
+                rc, out = run([binp, "child", "c18", str(seed * 77 + i), "2000", "60", "200000" if i == 0 else "3000", "64"], e2, 900)
+                m = re.search(r"C18DONE values=(\d+)", out or "")
+                if out and ("ERROR: AddressSanitizer" in out or "ERROR: LeakSanitizer" in out):
+                    reports += 1
+                    first = [l for l in out.splitlines() if "ERROR: " in l][:1]
+                    res.violation("C18/asan", "%s (first crate frame %s)" % (first[0].strip() if first else "ASan report", first_repo_frame(out)), out, "asan")
+                    break
+                elif m and rc == 0:
+                    nvals += int(m.group(1))
+                elif rc is None:
+                    res.inconclusive.append("asan run timed out")
+                else:
+                    res.violation("C18/crash", "workload under ASan exited with %s without a sanitizer report: %s" % (rc, (out or "")[-200:].replace("\n", " | ")), out or "", "asan")
+                    break
+            res.evaluations += nvals
+            res.legs.append({"leg": "asan", "tool": "rustc nightly -Zsanitizer=address", "runs": 3, "values_checked_under_asan": nvals, "reports": reports, "wall_s": round(time.time() - t0, 1)})
+    # ---- valgrind memcheck on the plain release binary
+    if only in (None, "valgrind"):
+        t0 = time.time()
+        if shutil.which("valgrind") is None:
+            res.inconclusive.append("valgrind not found")
+        else:
+            rc, out = run(["valgrind", "--error-exitcode=9", "--leak-check=full", "--errors-for-leak-kinds=definite", "-q", BIN, "child", "c18", str(seed * 13), "300", "20", "20000", "16"], env, 1800)
+            m = re.search(r"C18DONE values=(\d+)", out or "")
+            if rc == 9 or (out and ("Invalid read" in out or "Invalid free" in out or "Invalid write" in out)):
+                first = [l for l in (out or "").splitlines() if "Invalid" in l or "definitely lost" in l][:1]
+                res.violation("C18/valgrind", "memcheck: %s (first crate frame %s)" % (first[0].strip() if first else "error", first_repo_frame(out or "")), out or "", "valgrind")
+            elif m and rc == 0:
+                res.evaluations += int(m.group(1))
+            elif rc is None:
+                res.inconclusive.append("valgrind run timed out")
+            else:
+                res.violation("C18/crash", "workload under valgrind exited with %s: %s" % (rc, (out or "")[-200:].replace("\n", " | ")), out or "", "valgrind")
+            res.legs.append({"leg": "valgrind", "tool": "valgrind memcheck --leak-check=full", "values_checked": int(m.group(1)) if m else 0, "exit": rc, "wall_s": round(time.time() - t0, 1)})
